@@ -495,6 +495,7 @@ def gen_project(rng, root, rep=None):
     datadir_arg = rng.choice(['demo', 'demo data/v 1'])
     hdrdir_arg = rng.choice([None, None, 'demo-1.0', 'my hdrs'])
     man = rng.random() < 0.8
+    man_gz = rng.random() < 0.7          # a compressed page: the installed file is a build-directory output with a directory part
     for k, v in (('ver', ver), ('lib2', lib2), ('static', static_inst), ('pc', pc), ('recursive', recursive), ('man', man),
                  ('tooldir', tooldir is not None), ('hdrdir_arg', hdrdir_arg is not None)):
         if rep:
@@ -512,6 +513,8 @@ def gen_project(rng, root, rep=None):
         'include/README': 'not a header\n',
         'top.h': '/* top */\n',
         'man/prog.1': '.TH prog 1\n',
+        'man/fmt/demofmt.5': '.TH demofmt 5\n',
+        'man/api/deep/demo_foo.3': '.TH demo_foo 3\n',
         'data/my data.txt': 'data\n',
     }
     L = ["project('demo', version='1.0')",
@@ -531,6 +534,9 @@ def gen_project(rng, root, rep=None):
           "install(header_file('top.h'))"]
     if man:
         L.append("install(man_page('man/prog.1', compress=False))")
+    if man_gz:
+        L.append("install(man_page('man/fmt/demofmt.5', compress=True))")
+        L.append("install(man_page('man/api/deep/demo_foo.3', compress=False))")
     if static_inst:
         L.append("install(bar)")
     if pc:
@@ -565,6 +571,8 @@ def gen_project(rng, root, rep=None):
         exp.append(('libdir', 'deep/libbaz.so'))
     if man:
         exp.append(('mandir', 'man1/prog.1'))
+    if man_gz:
+        exp += [('mandir', 'man5/demofmt.5.gz'), ('mandir', 'man3/demo_foo.3')]
     if static_inst:
         exp.append(('libdir', 'libbar.a'))
     if pc:
